@@ -16,7 +16,7 @@ func init() { registry["C06"] = propC06 }
 func propC06() *Property {
 	return &Property{
 		ID:          "C06",
-		Explanation: "Crash clause only, by obligation classes: Go panics have a closed set of causes; over every function of the packages below the UI (pub, object, client, jtp, mime, hypertext, gemtext, plaintext, markdown, ansi, style) the checker enumerates every may-panic site of the classes K1–K7 and discharges each with a named static argument. K1: every type assertion is comma-ok (or provably holds). K2: every use of the value of a value+Err pair that would crash on the zero value is dominated by XErr == nil, and every producer stored into a pair returns a non-nil value with a nil error. K3: every slice index, slice bound, strings.Repeat count and make size that can depend on a width parameter or a link number is proven within range from branch facts (linear inequalities), or is a named relational exception. K4: every index into a regexp match is within the pattern's capture count and either guarded by a length test, or the pattern is total, or the match comes from FindAll. K5: every explicit panic is discharged (superscript of non-negative numbers only, Activity kinds accepted ⊆ kinds rendered, non-nil harvest receiver, NewFailure(non-nil) via C05.R4). K6: no typed-nil in Container/Tangible (C11.R1). K7: every recursion (call-graph SCC) is in the table with a checked measure. K8: every dereference of a *url.URL in the module (field read, net/url method call) happens where the pointer is provably non-nil — identifiers can be absent, so ids travel as possibly-nil pointers; proof by dominating nil tests, checked url.Parse / ResolveReference results, the source of a successful fetch, and assume-guarantee over all call sites of a parameter. K9: every index or slice bound applied to a strings.Fields result (as many pieces as the text has — none for blanks), and every constant index above 0 into a strings.Split result, is within the length known from branch facts at that point. (K10 = C08.R5) every goroutine of a fan-out writes the slot of its own iteration, so no result slot stays nil. (K3, addition) an index that is the length of its own sequence minus a constant is claimed whatever it depends on: the sequence must be known to be that long (the last element of a slice that can be empty). NOT decided: the hang / resource clause (cost of nested indenting blocks: the property text records that the pinned tree violates it with 82 nested <blockquote>; no sound static cost analysis is in reach), nil dereferences outside K2/K6, and bounds checks that rest on relational invariants, which are listed in the evidence as unclaimed sites.",
+		Explanation: "Crash clause only, by obligation classes: Go panics have a closed set of causes; over every function of the packages below the UI (pub, object, client, jtp, mime, hypertext, gemtext, plaintext, markdown, ansi, style) the checker enumerates every may-panic site of the classes K1–K7 and discharges each with a named static argument. K1: every type assertion is comma-ok (or provably holds). K2: every use of the value of a value+Err pair that would crash on the zero value is dominated by XErr == nil, and every producer stored into a pair returns a non-nil value with a nil error. K3: every slice index, slice bound, strings.Repeat count and make size that can depend on a width parameter or a link number is proven within range from branch facts (linear inequalities), or is a named relational exception. K4: every index into a regexp match is within the pattern's capture count and either guarded by a length test, or the pattern is total, or the match comes from FindAll. K5: every explicit panic is discharged (superscript of non-negative numbers only, Activity kinds accepted ⊆ kinds rendered, non-nil harvest receiver, NewFailure(non-nil) via C05.R4). K6: no typed-nil in Container/Tangible (C11.R1). K7: every recursion (call-graph SCC) is in the table with a checked measure. K8: every dereference of a *url.URL in the module (field read, net/url method call) happens where the pointer is provably non-nil — identifiers can be absent, so ids travel as possibly-nil pointers; proof by dominating nil tests, checked url.Parse / ResolveReference results, the source of a successful fetch, and assume-guarantee over all call sites of a parameter. K9: every index or slice bound applied to a strings.Fields result (as many pieces as the text has — none for blanks), and every constant index above 0 into a strings.Split result, is within the length known from branch facts at that point. (K10 = C08.R5) every goroutine of a fan-out writes the slot of its own iteration, so no result slot stays nil. (K3, addition) an index that is the length of its own sequence minus a constant is claimed whatever it depends on: the sequence must be known to be that long (the last element of a slice that can be empty). (K12) every call of ansi.Snip passes a height that is a non-negative constant or proven non-negative in front of the call (Snip sizes a slice with it). NOT decided: the hang / resource clause (cost of nested indenting blocks: the property text records that the pinned tree violates it with 82 nested <blockquote>; no sound static cost analysis is in reach), nil dereferences outside K2/K6, and bounds checks that rest on relational invariants, which are listed in the evidence as unclaimed sites.",
 		Assumptions: []string{"library functions do not panic on the argument ranges established here (strings.Repeat count >= 0, slice bounds)", "regexp/syntax models the regexp engine's capture structure"},
 		Rules: []Rule{
 			{ID: "C06.K1", Title: "type assertions are comma-ok or provably hold", Floor: 10, Run: c06K1},
@@ -27,6 +27,7 @@ func propC06() *Property {
 			{ID: "C06.K7", Title: "every recursion has a checked measure", Floor: 3, Run: c06K7},
 			{ID: "C06.K9", Title: "elements of a split text are taken only where the split is known to be long enough", Floor: 0, Run: splitIndexing},
 			{ID: "C06.K8", Title: "URLs (identifiers can be absent) are dereferenced only where provably non-nil", Floor: 10, Run: c06K8},
+			{ID: "C06.K12", Title: "a count of lines asked of ansi.Snip is not negative: every call passes a height that is a non-negative constant or provably not below zero (Snip sizes a slice with it)", Floor: 2, Run: c06K12},
 			{ID: "C06.K11", Title: "interface values are only compared where their dynamic types are comparable", Floor: 0, Run: c06K11},
 			{ID: "C06.K10", Title: "every goroutine of a fan-out fills the slot of its own iteration: no result slot stays nil to be dereferenced later (same instances as C08.R5)", Floor: 40, Run: c08R5},
 		},
@@ -370,7 +371,7 @@ func c06K3(c *Ctx) {
 					c.ok(construct, P.InstrPos(in), fname, "index is the loop variable of a range over the same sequence")
 				case tainted(x.Index):
 					c.bad(construct, P.InstrPos(in), fname, "index "+lin(x.Index).String()+" depends on the requested width / link number and is not proven within bounds")
-				case hi && !lo && lin(x.Index).coef["len("+normSym(x.X)+")"] > 0:
+				case hi && !lo && belowLenByConstruction(x.Index, x.X):
 					// below the length by construction (len(s)-k), but s may be shorter than k: the last element of a sequence that can be empty
 					c.bad(fname+"/index-from-end", P.InstrPos(in), fname, "index "+lin(x.Index).String()+" is counted from the end of a sequence that is not known to be long enough here: on a shorter (empty) sequence it is negative and the access panics")
 				default:
@@ -1581,4 +1582,48 @@ func c06K11(c *Ctx) {
 		})
 	}
 	c.info("interface_comparisons_reported", n)
+}
+
+// c06K12: ansi.Snip sizes a slice with its height parameter and counts down
+// from it: a negative height panics (makeslice: cap out of range). On the
+// pinned tree the callers pass the constant 4. Assume-guarantee over the call
+// sites: every call of ansi.Snip in the module passes a height that is a
+// constant >= 0, or is proven non-negative from the facts in front of the
+// call (seed C06-2r12 passed `4 - Height(header)`).
+func c06K12(c *Ctx) {
+	P := c.P
+	snip := P.FuncOpt("servitor/ansi", "Snip")
+	if snip == nil {
+		c.bad("servitor/ansi.Snip", "ansi", "servitor/ansi", "ansi.Snip not found")
+		return
+	}
+	hi := -1
+	for i, p := range snip.Params {
+		if p.Name() == "height" {
+			hi = i
+		}
+	}
+	if hi < 0 {
+		hi = 2
+	}
+	for _, fn := range P.Funcs {
+		if !P.IsServitorFunc(fn) {
+			continue
+		}
+		eachInstr(fn, func(b *ssa.BasicBlock, _ int, in ssa.Instruction) {
+			call, ok := in.(*ssa.Call)
+			if !ok || call.Call.StaticCallee() != snip || hi >= len(call.Call.Args) {
+				return
+			}
+			h := call.Call.Args[hi]
+			okH := false
+			if k, isK := constInt(h); isK {
+				okH = k >= 0
+			} else {
+				okH = proveValueNonNeg(h, b, 0) || isUnsignedVal(h) && false
+			}
+			c.check(okH, FuncName(fn)+"/snip-height", P.InstrPos(in), FuncName(fn), "the height handed to Snip is not negative",
+				"the number of lines asked of ansi.Snip, "+lin(h).String()+", is not known to be non-negative here: Snip sizes a slice with it and panics (makeslice: cap out of range) when it is below zero")
+		})
+	}
 }
